@@ -58,8 +58,11 @@ def main(argv):
             bad = [h for h in hits if not h["ok"]]
             print("replay: %d matching obligation(s), %d violated" % (len(hits), len(bad)))
             return 1 if bad else 0
-        if tier == "thorough" and hasattr(mod, "thorough"):
-            mod.thorough(ck)
+        if tier == "thorough":
+            if hasattr(mod, "thorough"):
+                mod.thorough(ck)
+            from sa import selfval
+            selfval.run_for(ck, pid)
         return ck.finish()
     except (AnalysisError, Unmodelled) as e:
         print("ANALYSIS-ERROR property=%s %s: %s" % (pid, type(e).__name__, e))
